@@ -1,12 +1,12 @@
 (* Extract.v — OCaml extraction of the model, the specification and the judges (ExtrOcamlBasic only;
    nat, N, positive stay Coq inductives). *)
 From Coq Require Import ExtrOcamlBasic.
-From BidiVerif Require Import Base ConstsGen TablesGen ModelText ModelResolve ModelLine Spec Obs Judge.
+From BidiVerif Require Import Base ConstsGen TablesGen ModelText ModelResolve ModelLine Spec Obs Judge StageRel.
 Extraction Language OCaml.
 Extraction "bidi_model.ml"
   model_obs model_lines_bi model_lines_pi model_queries_bi model_queries_pi hardcoded_ds hardcoded_class hardcoded_bracket
   C01_judge C02_judge C03_judge C04_judge C04_judge_levels C05_judge C06_judge C07_judge C08_judge
-  C10_judge C11_judge case_reaches_limits LI_check C16_judge C17_judge
+  C10_judge C11_judge case_reaches_limits LI_check stage_check C16_judge C17_judge
   reorder_visual l2 decode16 case_chars spec_text is_single_paragraph
   char_at16 char_indices16 indices_lengths16 chars16 chars16_rev chars16_new chars16_next chars16_next_back
   chars16_next_legacy iter16_program C18_iter_judge char_at_spec C09_judge C13_judge char_at8 char_indices8 t_indices_lengths t_chars t_chars_rev t_len
